@@ -24,12 +24,13 @@ def sh(cmd, cwd=None, env=None, timeout=3600):
 def main():
     prop = sys.argv[1].upper()
     suite = "--suite" in sys.argv
+    w8 = "--wave8" in sys.argv
     w7 = "--wave7" in sys.argv
-    w6 = "--wave6" in sys.argv or w7
-    wt = "/tmp/seed/%s-%s" % ("w7" if w7 else ("w6" if w6 else "w5"), prop)
+    w6 = "--wave6" in sys.argv or w7 or w8
+    wt = "/tmp/seed/%s-%s" % ("w8" if w8 else "w7" if w7 else ("w6" if w6 else "w5"), prop)
     out = []
-    for k in ((4,) if w6 else (1, 2, 3)):          # sixth round: one refactoring per agent, id <P>-8
-        src = "/tmp/seed/out%d-%s/benign1" % (7 if w7 else 6, prop) if w6 else "/tmp/seed/out5-%s/benign%d" % (prop, k)
+    for k in ((5,) if w8 else (4,) if w6 else (1, 2, 3)):          # sixth round: one refactoring per agent, id <P>-8
+        src = "/tmp/seed/out%d-%s/benign1" % (8 if w8 else 7 if w7 else 6, prop) if w6 else "/tmp/seed/out5-%s/benign%d" % (prop, k)
         patch, demo = os.path.join(src, "patch.diff"), os.path.join(src, "demo.py")
         if not (os.path.exists(patch) and os.path.exists(demo)):
             out.append(dict(id="%s-%d" % (prop, k + 4), status="missing"))
@@ -68,7 +69,7 @@ def main():
                 if os.path.exists(os.path.join(src, fn)):
                     shutil.copy(os.path.join(src, fn), os.path.join(d, fn))
             with open(os.path.join(d, "meta.json"), "w") as f:
-                json.dump(dict(id=res["id"], property=prop, round=(7 if w7 else 6) if w6 else 5, source="independent sub-agent given only the property text and a scratch worktree",
+                json.dump(dict(id=res["id"], property=prop, round=(8 if w8 else 7 if w7 else 6) if w6 else 5, source="independent sub-agent given only the property text and a scratch worktree",
                                verification=res), f, indent=1)
         else:
             shutil.rmtree(d, ignore_errors=True)
